@@ -251,9 +251,49 @@ pub fn gen_keyf(c: &mut dyn Choices) -> KeyF {
   *c.one_of(&[KeyF::Mod2, KeyF::Mod3, KeyF::Id, KeyF::Const])
 }
 
-/// a count parameter in 0..=len+1 (boundary values included); `min` lets callers exclude 0
+/// a count parameter in 0..=len+1 (boundary values included); `min` lets callers exclude 0.
+/// The same pick also offers (at its high end, so that recorded picks keep their meaning) counts far
+/// outside that range: a count larger than any input, thresholds, usize::MAX - counts are documented as
+/// upper bounds, so these are ordinary inputs.
 pub fn gen_count(c: &mut dyn Choices, len_hint: usize, min: usize) -> usize {
-  min + c.pick(len_hint + 2 - min.min(len_hint + 1))
+  const BIG: [usize; 8] = [usize::MAX, usize::MAX / 2, 65536, 65537, 255, 32, 33, 0];
+  let range = len_hint + 2 - min.min(len_hint + 1);
+  // one extra alternative per ~2 ordinary ones would starve the ordinary range: add just one slot per big value
+  let k = c.pick(range + BIG.len());
+  if k < range {
+    min + k
+  } else {
+    let b = BIG[k - range];
+    if b == 0 {
+      len_hint + 33
+    } else {
+      b
+    }
+  }
+}
+
+/// a long item sequence from a handful of picks (keeps tapes short and shrinkable):
+/// constant, counting, cycling, or pseudo-random over the alphabet
+pub fn gen_long_items(c: &mut dyn Choices, n: usize, alphabet: usize) -> Vec<V> {
+  let a = alphabet.max(1) as i64;
+  match c.pick(5) {
+    0 => (0..n).map(|i| V::I(i as i64 % a)).collect(),
+    1 => (0..n).map(|i| V::I(i as i64)).collect(),
+    2 => {
+      let k = c.pick(alphabet.max(1)) as i64;
+      (0..n).map(|_| V::I(k)).collect()
+    }
+    3 => (0..n).map(|i| V::I((n - i) as i64)).collect(),
+    _ => {
+      let mut x: u64 = 1 + c.pick(1 << 16) as u64;
+      (0..n)
+        .map(|_| {
+          x = x.wrapping_mul(6364136223846793005).wrapping_add(1442695040888963407);
+          V::I(((x >> 33) % a as u64) as i64)
+        })
+        .collect()
+    }
+  }
 }
 
 pub const N_C03_UN: usize = 37;
@@ -514,6 +554,23 @@ pub fn gen_kinds(c: &mut dyn Choices, n: usize, behavior: bool) -> Vec<IKind> {
 /// own terminal, terminals are repeated, and (with `timed`) the clock and the
 /// executor are driven as well
 pub fn gen_script(c: &mut dyn Choices, n_inputs: usize, max_len: usize, alphabet: usize, timed: bool, mode: SchedMode) -> Vec<Step> {
+  gen_script_plain(c, n_inputs, max_len, alphabet, timed, mode)
+}
+
+/// long variant of a script: its non-terminal steps repeated 6..15 times, then the original script as tail.
+/// (Called with picks that come *after* every other pick of the case, so that recorded tapes keep their meaning.)
+pub fn lengthen_script(c: &mut dyn Choices, script: &[Step]) -> Vec<Step> {
+  let block: Vec<Step> = script.iter().filter(|s| !matches!(s, Step::Emit(_, e) if e.is_terminal())).take(5).cloned().collect();
+  let reps = 6 + c.pick(10);
+  let mut s = vec![];
+  for _ in 0..reps {
+    s.extend(block.iter().cloned());
+  }
+  s.extend(script.iter().cloned());
+  s
+}
+
+fn gen_script_plain(c: &mut dyn Choices, n_inputs: usize, max_len: usize, alphabet: usize, timed: bool, mode: SchedMode) -> Vec<Step> {
   let n = c.pick(max_len + 1);
   let mut s = vec![];
   for _ in 0..n {
